@@ -55,7 +55,12 @@ pub fn expand(input: &syn::DeriveInput, _: &str) -> syn::Result<TokenStream> {
         let mut where_clause = where_clause
             .cloned()
             .unwrap_or_else(|| parse_quote! { where });
-        where_clause.predicates.extend(bounds);
+        where_clause.predicates.extend(super::break_recursive_bounds(
+            bounds,
+            ident,
+            &type_params,
+            &format_ident!("Debug"),
+        ));
         (impl_gens, ty_gens, where_clause)
     };
 
